@@ -28,15 +28,15 @@ theorem loopParams_cases (depth colorType : UInt8) (hd : depth = 8 ∨ depth = 1
 /-- What `Encode` does on valid arguments with a writer that never fails, from ANY prior encoder
 state of the right size: it succeeds, leaves a usable encoder, and the bytes written decode (by the
 reference decoder) to the input's dimensions, depth, colour type and pixel bytes. -/
-theorem encode_decodes (e : Enc) (pix : Array UInt8) (width height stride : Nat) (depth colorType : UInt8)
+theorem encode_decodes (e : Enc) (pix : Array UInt8) (plen width height stride : Nat) (depth colorType : UInt8)
     (hsz : e.buf.size = 65536) (hoob : e.oob = false) (hlen : pix.size < 9223372036854775808)
-    (hw : 0 < width) (hw2 : width ≤ 0xFFFFFF) (hh : 0 < height) (hh2 : height ≤ 0xFFFFFF)
+    (hple : plen ≤ pix.size) (hw : 0 < width) (hw2 : width ≤ 0xFFFFFF) (hh : 0 < height) (hh2 : height ≤ 0xFFFFFF)
     (hd : depth = 8 ∨ depth = 16) (hc : colorType = 1 ∨ colorType = 2 ∨ colorType = 3)
-    (hpix : (height - 1) * stride + (loopParams depth colorType).2 * width ≤ pix.size) :
-    (encode e (Writer.new none) pix width height stride depth colorType).status = .ok ∧
-    (encode e (Writer.new none) pix width height stride depth colorType).e.buf.size = 65536 ∧
-    (encode e (Writer.new none) pix width height stride depth colorType).e.oob = false ∧
-    Spec.decode (out (encode e (Writer.new none) pix width height stride depth colorType).w)
+    (hpix : (height - 1) * stride + (loopParams depth colorType).2 * width ≤ plen) :
+    (encode e (Writer.new none) pix plen width height stride depth colorType).status = .ok ∧
+    (encode e (Writer.new none) pix plen width height stride depth colorType).e.buf.size = 65536 ∧
+    (encode e (Writer.new none) pix plen width height stride depth colorType).e.oob = false ∧
+    Spec.decode (out (encode e (Writer.new none) pix plen width height stride depth colorType).w)
       = some ⟨width, height, depth.toNat, (pngFileFormatEncoding colorType).toNat,
           imageBytes pix (loopParams depth colorType).1 (loopParams depth colorType).2 width stride height 0⟩ := by
   obtain ⟨ch, hch, hn, hnk, hn64⟩ := loopParams_cases depth colorType hd hc
@@ -54,13 +54,13 @@ theorem encode_decodes (e : Enc) (pix : Array UInt8) (width height stride : Nat)
     refine ⟨i1, by rw [i2, hoob], rfl, by decide, [], by simp, rfl, by simpa [Adler.update] using i6, ?_, by simp⟩
     intro _
     exact ⟨i3, i4, i5, by decide, by rw [slice_of_le _ _ _ (by decide)]⟩
-  have hrows : ∀ y', 0 ≤ y' → y' < 0 + height → y' * stride + k * width ≤ pix.size := by
+  have hrows : ∀ y', 0 ≤ y' → y' < 0 + height → y' * stride + k * width ≤ plen := by
     intro y' _ h2
     have : y' * stride ≤ (height - 1) * stride := Nat.mul_le_mul_right _ (by omega)
     omega
-  obtain ⟨l1, l2⟩ := rowLoop_inv (header width height depth colorType) pix n k width stride hn64 hnk height 0
-    e0 (Writer.new none) eiFirst [] hinv0 hlen hrows
-  generalize rowLoop pix width (stride : Int) n k height 0 ⟨e0, Writer.new none, eiFirst, true⟩ = s at *
+  obtain ⟨l1, l2⟩ := rowLoop_inv (header width height depth colorType) pix plen n k width stride hn64 hnk height 0
+    e0 (Writer.new none) eiFirst [] hinv0 hlen hple hrows
+  generalize rowLoop pix plen width (stride : Int) n k height 0 ⟨e0, Writer.new none, eiFirst, true⟩ = s at *
   simp only [l1, ↓reduceIte, List.nil_append] at l2 ⊢
   obtain ⟨hsz', hoob', hw', hej', bs, hlen, hout, hA, hnil, hcons⟩ := l2
   obtain ⟨sa, sb⟩ := Adler.update_lt Adler.init bs.flatten (by decide) (by decide)
@@ -86,7 +86,7 @@ theorem encode_decodes (e : Enc) (pix : Array UInt8) (width height stride : Nat)
   obtain ⟨pend, hp, hD, f1, f2, f3, f4⟩ := hfin
   refine ⟨by simp [f1, f3], f2, f3, ?_⟩
   rw [f4]
-  have hunf := Spec.unfilter_scanlines pix n k width stride hnk height 0 #[] hrows
+  have hunf := Spec.unfilter_scanlines pix n k width stride hnk height 0 #[] (fun y' h1 h2 => Nat.le_trans (hrows y' h1 h2) hple)
   rw [← hD] at hunf
   cases hux : Spec.unfilter (width * n) height (bs.flatten ++ pend) #[] with
   | none => rw [hux] at hunf; simp at hunf
